@@ -22,6 +22,38 @@ func genVal(t *rapid.T, label string) int {
 	return rapid.IntRange(-50, 50).Draw(t, label)
 }
 
+// genVec draws n values.  Besides independent values it builds the orders a
+// "nothing to do here" shortcut would key on: non-decreasing along the parent
+// links (i-1)/2 (already a heap), along the WRONG parent links i/2 (looks
+// ordered to a check written with that formula but need not be a heap),
+// sorted either way, and constant - each also mirrored for the reverse order.
+func genVec(t *rapid.T, label string, n int) []int {
+	vs := make([]int, n)
+	shape := rapid.IntRange(0, 9).Draw(t, label+"Shape")
+	if shape >= 5 || n == 0 {
+		for i := range vs {
+			vs[i] = genVal(t, label)
+		}
+		return vs
+	}
+	dir := rapid.SampledFrom([]int{1, 1, -1}).Draw(t, label+"Dir")
+	step := func() int { return dir * rapid.SampledFrom([]int{0, 0, 1, 1, 2, 5}).Draw(t, label+"Step") }
+	vs[0] = rapid.IntRange(-5, 5).Draw(t, label+"Root")
+	for i := 1; i < n; i++ {
+		switch shape {
+		case 0:
+			vs[i] = vs[(i-1)/2] + step()
+		case 1, 2:
+			vs[i] = vs[i/2] + step()
+		case 3:
+			vs[i] = vs[i-1] + step()
+		default:
+			vs[i] = vs[0]
+		}
+	}
+	return vs
+}
+
 func genHOp(kinds []string) *rapid.Generator[HOp] {
 	return rapid.Custom(func(t *rapid.T) HOp {
 		op := HOp{Kind: rapid.SampledFrom(kinds).Draw(t, "k")}
@@ -31,10 +63,7 @@ func genHOp(kinds []string) *rapid.Generator[HOp] {
 		case "set":
 			n := rapid.OneOf(rapid.IntRange(0, 12), rapid.IntRange(0, 12), rapid.IntRange(0, 40), rapid.IntRange(0, 40),
 				rapid.SampledFrom([]int{63, 64, 65, 100, 128, 129, 200, 257})).Draw(t, "n")
-			op.Vs = make([]int, n)
-			for i := range op.Vs {
-				op.Vs[i] = genVal(t, "sv")
-			}
+			op.Vs = genVec(t, "sv", n)
 		case "remove", "peek":
 			op.A = rapid.IntRange(-1, 60).Draw(t, "i")
 		default:
@@ -66,10 +95,7 @@ func genHeapCase(pos bool) func(t *rapid.T) HeapCase {
 		if c.Mode == "A" || rapid.IntRange(0, 2).Draw(t, "useData") == 0 {
 			c.UseData = true
 			n := rapid.OneOf(rapid.IntRange(0, 15), rapid.IntRange(0, 40)).Draw(t, "dn")
-			c.Data = make([]int, n)
-			for i := range c.Data {
-				c.Data[i] = genVal(t, "dv")
-			}
+			c.Data = genVec(t, "dv", n)
 			c.Spare = rapid.IntRange(0, 7).Draw(t, "spare")
 		}
 		c.Ops = rapid.SliceOfN(genHOp(kinds), 0, vk.MaxOps(t, 60, 400)).Draw(t, "ops")
@@ -102,10 +128,7 @@ func genHeapCase(pos bool) func(t *rapid.T) HeapCase {
 				pre = append(pre, HOp{Kind: k, A: genVal(t, "fv")})
 			}
 			if c.Mode == "A" {
-				vs := make([]int, nfill)
-				for i := range vs {
-					vs[i] = genVal(t, "fsv")
-				}
+				vs := genVec(t, "fsv", nfill)
 				pre = append(pre, HOp{Kind: "set", Vs: vs})
 			}
 			var dist HOp
@@ -151,10 +174,7 @@ func TestC05Sort(t *testing.T) {
 		c := SortCase{Desc: rapid.Bool().Draw(t, "desc")}
 		if rapid.IntRange(0, 9).Draw(t, "nil") > 0 {
 			n := rapid.OneOf(rapid.IntRange(0, 10), rapid.IntRange(0, 200)).Draw(t, "n")
-			c.Vs = make([]int, n)
-			for i := range c.Vs {
-				c.Vs[i] = genVal(t, "v")
-			}
+			c.Vs = genVec(t, "v", n)
 			if rapid.IntRange(0, 5).Draw(t, "big") == 0 {
 				c.Big = rapid.SampledFrom([]int{50, 130, 254, 255, 256, 257, 300, 511, 512, 513, 700, 1100}).Draw(t, "bigN")
 			}
